@@ -24,9 +24,19 @@ BOUNDS = {'quick': '90 line skeletons of 2..7 lines (consistent regime, all widt
 EXHAUSTIVE = {'quick': False, 'thorough': False}
 PRE = dipkit.DIP_SRC + r'''
 def parse_lines(O, lines, indents):
-    """lines without indentation + one (possibly symbolic) width per line"""
+    """one (possibly multi-line) text per item, without indentation, + one (possibly symbolic) width per item"""
     if not O.symbolic:
-        return dip_parse('\n'.join((' ' * int(w) + l) if l.strip() else l for l, w in zip(lines, indents)))
+        out = []
+        for l, w in zip(lines, indents):
+            parts = l.split('\n')
+            out.append(((' ' * int(w) + parts[0]) if parts[0].strip() else parts[0]) + ''.join('\n' + p for p in parts[1:]))
+        return dip_parse('\n'.join(out))
+    item_of_line = {}
+    n = 0
+    for idx, l in enumerate(lines):
+        for _ in l.split('\n'):
+            n += 1
+            item_of_line[n] = idx
     with DIP() as p:
         p.add_string('\n'.join(lines))
         real = p._get_queue
@@ -34,13 +44,13 @@ def parse_lines(O, lines, indents):
             q = real()
             for node in q.nodes:
                 if node.keyword != 'empty':
-                    node.indent = indents[node.source[1] - 1]
+                    node.indent = indents[item_of_line[node.source[1]]]
             return q
         p._get_queue = with_symbolic_indents
         return p.parse()
 def expected(O, v, prog, indents):
     """oracle: parent = nearest preceding named line with smaller indentation (backward scan, not a stack)"""
-    named = [(i, it) for i, it in enumerate(prog) if it[0] in ('group', 'def', 'mod')]
+    named = [(i, it) for i, it in enumerate(prog) if it[0] in ('group', 'def', 'mod', 'table')]
     paths = {}
     out = {}
     for pos, (i, it) in enumerate(named):
@@ -54,14 +64,18 @@ def expected(O, v, prog, indents):
         paths[i] = path
         if it[0] in ('def', 'mod'):
             out[path] = getattr(v, it[2])
+        if it[0] == 'table':
+            out[path + '.col'] = [1]
+            out[path + '.val'] = [getattr(v, it[2])]
     return out
 def render(O, v, prog):
     lines = []
     for it in prog:
         k = it[0]
         if k == 'group': lines.append(it[1])
-        elif k == 'def': lines.append(f'{it[1]} float = {O.lit(getattr(v, it[2]))}' + ('   # trailing comment' if it[3] else ''))
+        elif k == 'def': lines.append(f'{it[1]} float = {O.lit(getattr(v, it[2]))}' + ('   # trailing comment' if it[3] == 1 else '#glued comment' if it[3] == 2 else ''))
         elif k == 'mod': lines.append(f'{it[1]} = {O.lit(getattr(v, it[2]))}')
+        elif k == 'table': lines.append(f'{it[1]} table = """\ncol int\nval float\n\n1 {O.lit(getattr(v, it[2]))}\n"""')
         elif k == 'comment': lines.append('# just a comment')
         elif k == 'blank': lines.append('')
     return lines
@@ -76,7 +90,10 @@ def run(v, O):
     out = [('one parameter per distinct node, in order of first appearance', O.same(list(data.keys()), list(want.keys())))]
     for k, val in want.items():
         if k in data:
-            out.append((f'value of {k}', O.eq(data[k], val)))
+            if isinstance(val, list):
+                out.append((f'value of {k}', O.eq(data[k][0], val[0]) if len(data[k]) == 1 else False))
+            else:
+                out.append((f'value of {k}', O.eq(data[k], val)))
     # comment / blank lines removed: same result
     keep = [i for i, it in enumerate(v.prog) if it[0] not in ('comment', 'blank')]
     if len(keep) < len(v.prog):
@@ -137,6 +154,14 @@ LITERALS = [
     ('table float column with unit', 'out table = """\nsnap int\ntime float s\n\n0 0.234\n1 1.355\n2 2.535\n"""', 'out.time', [0.234, 1.355, 2.535], 's', (F, 64, None)),
     ('table three columns', 'g\n  t table = """\na int\nb str\nc bool\n\n1 x true\n2 y false\n"""', 'g.t.b', ['x', 'y'], None, (S, None, None)),
     ('table bool column', 'g\n  t table = """\na int\nb str\nc bool\n\n1 x true\n2 y false\n3 z true\n"""', 'g.t.c', [True, False, True], None, (B, None, None)),
+    ('table after a sibling node', 'box\n  n int = 1\n  t table = """\nx int\ny float m\n\n1 2.5\n3 4.5\n"""', 'box.t.y', [2.5, 4.5], 'm', (F, 64, None)),
+    ('root table after a root node', 'g int = 1\nt table = """\nx int\n\n1\n3\n"""', 't.x', [1, 3], None, (I, 32, False)),
+    ('table after a group with children', 'box\n  sub\n    q int = 1\n  t table = """\nx int\n\n1\n"""', 'box.t.x', [1], None, (I, 32, False)),
+    ('comment glued to a bare int', 'a int = 3# note', 'a', 3, None, (I, 32, False)), ('comment glued to a bare string', 'a str = run42#note', 'a', 'run42', None, (S, None, None)),
+    ('comment glued to a float with unit', 'a float = 1.5 m#c', 'a', 1.5, 'm', (F, 64, None)), ('comment glued to a quoted string', "a str = 'x y'#c", 'a', 'x y', None, (S, None, None)),
+    ('block text closed by indented quotes', 'g\n  t str = """\nfirst line\n  second line\n  """', 'g.t', 'first line\n  second line', None, (S, None, None)),
+    ('block text closed by deeply indented quotes', 'g\n  h\n    t str = """\nabc\n        """', 'g.h.t', 'abc', None, (S, None, None)),
+    ('block array closed by indented quotes', 'g\n  a int[2] = """\n[1,\n 2]\n  """ m', 'g.a', [1, 2], 'm', (I, 32, False)),
     ('nested under groups', 'g\n  h\n    a float = 1.5 m', 'g.h.a', 1.5, 'm', (F, 64, None)), ('dotted name', 'g.h.a float = 1.5 m', 'g.h.a', 1.5, 'm', (F, 64, None)),
     ('dotted name under group', 'g\n  h.a int = 4', 'g.h.a', 4, None, (I, 32, False)), ('child of a typed node', 'f str = x\n  c int = 1', 'f.c', 1, None, (I, 32, False)),
     ('name with hyphen and digits', 'a-1_b int = 4', 'a-1_b', 4, None, (I, 32, False)), ('trailing comment after unit', 'a float = 1 m # c', 'a', 1.0, 'm', (F, 64, None)),
@@ -182,10 +207,15 @@ def gen_prog(rnd, nlines, maxdepth):
             it = ('mod', rnd.choice(sibs), value())
         else:
             name = f'n{nn}' if rnd.random() < 0.8 else f'p{nn}.q'
-            it = ('def', name, value(), rnd.random() < 0.3)
-            sibs.append(name)
+            if rnd.random() < 0.15:
+                it = ('table', f't{nn}', value())
+            else:
+                it = ('def', name, value(), rnd.choice([0, 0, 0, 1, 2]))
+                sibs.append(name)
         prog.append(it); parents.append(parent); levels.append(depth)
-        if it[0] != 'mod':
+        if it[0] == 'table':
+            pass        # table columns are leaves: nothing is written below a table
+        elif it[0] != 'mod':
             stack.append(len(prog) - 1)
         else:
             # a modification re-opens the node of the same name: children written below it belong to that node
@@ -219,16 +249,16 @@ def scenarios(tier, seed):
     for j in range(ncons):
         n = rnd.randint(2, 7 if tier == 'quick' else 9)
         prog, parents, levels = gen_prog(rnd, n, 4)
-        if not any(it[0] in ('def', 'mod') for it in prog):
+        if not any(it[0] in ('def', 'mod', 'table') for it in prog):
             continue
         inp = {f'w{i}': 'int' for i in range(len(prog))}
-        inp.update({it[2]: 'real' for it in prog if it[0] in ('def', 'mod')})
+        inp.update({it[2]: 'real' for it in prog if it[0] in ('def', 'mod', 'table')})
         S.append(Scenario(f'tree/consistent/{j}', TREE_SRC, inp, consistent_constraints(prog, parents, levels), consts={'prog': prog}, preamble=PRE,
                           what=f'consistently indented program {prog}', samples=2))
     for j in range(nfree):
         n = rnd.randint(2, 5 if tier == 'quick' else 6)
         prog, parents, levels = gen_prog(rnd, n, 3)
-        prog = [it for it in prog if it[0] != 'mod']      # in the free regime a modification may land under another parent and become an undefined node
+        prog = [it for it in prog if it[0] not in ('mod', 'table')]      # in the free regime a modification may land under another parent and become an undefined node
         if not any(it[0] == 'def' for it in prog):
             continue
         inp = {f'w{i}': 'int' for i in range(len(prog))}
@@ -240,7 +270,7 @@ def scenarios(tier, seed):
         S.append(Scenario(f'literals/{c // k}', LIT_SRC, {}, consts={'cases': LITERALS[c:c + k]}, preamble=PRE, what='literal forms ' + ', '.join(x[0] for x in LITERALS[c:c + k]), samples=1))
     S.append(Scenario('rejected', REJ_SRC, {}, consts={'cases': REJECT}, preamble=PRE, what='texts that violate a declared shape/type', samples=1))
     S.append(Scenario('canary/parent', TREE_SRC, {'w0': 'int', 'w1': 'int', 'w2': 'int', 'x1': 'real', 'x2': 'real'}, ['v.w0 >= 0', 'v.w1 > v.w0', 'v.w2 == v.w1'],
-                      consts={'prog': [('group', 'g'), ('def', 'a', 'x1', False), ('def', 'b', 'x2', False)]},
+                      consts={'prog': [('group', 'g'), ('def', 'a', 'x1', 0), ('def', 'b', 'x2', 0)]},
                       preamble=PRE.replace('if indents[pi] < indents[i]:', 'if indents[pi] <= indents[i]:'), canary=True))
     return S
 
